@@ -525,6 +525,35 @@ def run(check):
     from . import c16 as _c16
 
     check.guarded("COMPILER-SCOPE", _c16.rule_compiler_of_this_call)
+    # which comment names the original map: the scan of the comment lists is complete (the last
+    # sourceMappingURL comment of a list - the one consumers honour - is the one decoded); a scan that
+    # stops at a first match chains with a superseded map
+    check.rule("MAP-PICK", "extract_source_map scans the comment map completely (no find / find_map / next / take / position / early exit on the iteration): with several sourceMappingURL comments at the end of a file the last one of the list names the original map")
+
+    def pick_inner(c):
+        prog = c.prog
+        e = prog.fn("rewriter::extract_source_map")
+        early = {"find", "find_map", "position", "next", "nth", "first", "take", "take_while", "map_while", "skip", "skip_while", "step_by", "try_for_each", "try_fold"}
+        hits = []
+        n_scan = 0
+        for g in prog.flat(e, 2):
+            for n in g.nodes():
+                # the scan of the map of trailing comments itself
+                if n.get("k") == "MethodCall" and n["method"] in ("iter", "iter_mut", "into_iter") and (hir.place(n["recv"]) or "").endswith(".trailing"):
+                    n_scan += 1
+                    for m_ in _c16._selective_chain(g, n):
+                        hits.append((g, {"method": m_, "sp": n["sp"], "k": "MethodCall"}))
+                if n.get("k") == "MethodCall" and n["method"] in early and "swc_common::comments::Comment" in (hir.peel(n["recv"]).get("ty") or "") and "dashmap" not in (hir.peel(n["recv"]).get("ty") or "").lower():
+                    hits.append((g, n))
+                if n.get("k") == "Break" and not n.get("desugar") and any(a.get("k") == "Match" and a.get("source", "").startswith("ForLoop") and "swc_common::comments::Comment" in (hir.peel(a["scrut"]).get("ty") or "") + " ".join(hir.peel(x).get("ty") or "" for x in hir.call_args(hir.peel(a["scrut"])) or []) for a in g.ancestors(n)):
+                    hits.append((g, n))
+        for g, n in hits:
+            c.bad("MAP-PICK", "MAP-PICK/%s/%s" % (g.name, n.get("method") or "break"), hir.loc(n), "the scan of a comment list stops early (%s): a sourceMappingURL comment that is followed by another one is taken for the effective one, and the output is chained with a superseded map" % (n.get("method") or "break"))
+        c.floor("MAP-PICK", "scans of the trailing-comment map", n_scan, 1)
+        if not hits:
+            c.ok("MAP-PICK", "MAP-PICK/complete-lists", hir.loc(e.rec), "no truncating adapter or break on the trailing-comment map or on a list of comments")
+
+    check.guarded("MAP-PICK", pick_inner)
     return {
         "explanation": "Provenance rules on the printed text (no position-blind edit), on the selection of the emitted map and on the arguments of SourceMapBuilder::add_raw / lookup_token; constant evaluation of the trailer format against the JS reader's constant; ordering and sibling rules for the comment removal.",
         "assumptions": ["sourcemap::SourceMap::lookup_token / SourceMapBuilder / VLQ encoding are correct", "base64 STANDARD engine"],
